@@ -1,18 +1,18 @@
 SPECIFICATION Spec
 CONSTANTS
   G = {1, 2}
-  Rows = {"r1", "r2"}
+  Rows = {"r1"}
   Acts = {"a1"}
   MaxBranches = 2
   MaxDup = 1
   MaxForeign = 0
-  AllowTimeout = FALSE
-  OblTruthful = FALSE
+  AllowTimeout = TRUE
+  OblTruthful = TRUE
   OblLockCover = TRUE
   OblDirtyRefused = TRUE
   OblIdempotent = TRUE
   OblFence = TRUE
-  AllowXA = FALSE
+  AllowXA = TRUE
   OblXATruthful = TRUE
-INVARIANTS TypeOK ATAtomicRollback TCCAtomic NoDirtyGlobalWrite RollbackPossible DecisionTruthful
+INVARIANTS TypeOK ATAtomicRollback TCCAtomic XAAtomic NoDirtyGlobalWrite RollbackPossible
 CHECK_DEADLOCK FALSE
